@@ -180,4 +180,18 @@ PROPS = {
                         "a secret supplied with a wrong JSON type (decode error text) is not generated",
                         "log lines written by goroutines after the case ended are attributed to no case (canaries are unique per case)"],
     },
+    "C11": {
+        "pkg": "hserver", "test": "TestC11", "level": "exploration",
+        "quick": T(16, 6, timeout=1500), "thorough": T(16, 120, timeout=14000),
+        "rule": "rapid state machine over the REAL HTTP handler + MetaCDC with live replication (real etcd catalog and meta store, fake MQ under the real msgstream / msgdispatcher, 2 fake downstream Milvus servers, 3 source collections sharing one physical channel): "
+                "create (disable_auto_start drawn), pause / resume / delete with a transient store failure injected at a drawn store call (task record read / write / delete, checkpoint delete, transaction open / commit), requests for unknown and deleted ids, position, "
+                "restart (incarnation killed: streams and store fenced; gauges and ts manager reset; ReloadTask); a row is produced for every task after every step. Oracle after every step: only legal transitions succeed; API get, persisted record, in-memory table and "
+                "per-state gauge sets equal the model for every task; deleted tasks leave no record of any kind; per target refCnt = number of running tasks, reader registrations = running tasks, entity absent when none runs; data produced for a paused / deleted task never "
+                "reaches its target; rows of running tasks arrive (stall = violation only when the service is at rest, rows were produced again after the streams opened, and no simulated restart preceded); when nothing runs every stream registered at the dispatcher has been "
+                "deregistered and no service goroutine spins; after a restart checkpoint records are kept and tasks run or stay paused according to disable_auto_start. non-trivial = a pause/resume happened and a store failure fired or a restart happened; distinct = distinct history",
+        "assumptions": ["restart is simulated inside the test process (previous incarnation fenced, process-wide singletons reset through verif hooks); a stall after such a restart is counted, not judged",
+                        "open MQ consumers are not the criterion for 'no active readers': the pinned msgdispatcher library keeps the consumer of a main dispatcher whose last target left while a solo dispatcher existed; register/deregister balance (from the dispatcher's log lines) is",
+                        "a goroutine sleeping in a 1 s poll is counted, only a running/runnable one is 'busy background work'",
+                        "store failures are single transient faults; checkpoint reads/writes used by the replication loops are not injected here"],
+    },
 }
